@@ -489,6 +489,9 @@ func (c *copier) obj(o *Object) *Object {
 	if n, ok := c.objs[o]; ok {
 		return n
 	}
+	if strings.HasPrefix(o.Tag, "reflect.Type:") {
+		return o // canonical type descriptors are process-wide and immutable (intr_reflect.go): identity must survive the template copy
+	}
 	n := &Object{ID: o.ID, T: o.T, Tag: o.Tag}
 	c.objs[o] = n
 	n.V = c.val(o.V)
